@@ -131,6 +131,7 @@ type verifC10_entry struct {
 	exec     bool
 	missing  bool
 	statErr  bool
+	badLink  bool // a symlink whose target the path parser rejects
 	children map[string]*verifC10_entry
 	mkdirs   []string
 }
@@ -179,6 +180,9 @@ func (d verifC10_dir) ReadDir() ([]filesystem.FileInfo, error) {
 	return out, nil
 }
 func (d verifC10_dir) Readlink(name path.Component) (path.Parser, error) {
+	if c, ok := d.e.children[name.String()]; ok && c.badLink {
+		return path.UNIXFormat.NewParser("target\x00of/" + name.String()), nil
+	}
 	return path.UNIXFormat.NewParser("target/of/" + name.String()), nil
 }
 func verifC10_fileDigest(name string) digest.Digest {
@@ -207,10 +211,17 @@ func (c *verifC10_cas) Put(ctx context.Context, d digest.Digest, b buffer.Buffer
 }
 
 func verifHarness_C10_DeclaredOutputs() {
-	rt.MustCover("out:file", "out:dir", "out:symlink", "out:missing", "out:special", "out:stat-error", "out:two-strings")
+	rt.MustCover("out:file", "out:dir", "out:symlink", "out:missing", "out:special", "out:stat-error", "out:two-strings", "out:unresolvable-symlink")
 	// one declared location "a/o" (optionally under two strings), whose kind is arbitrary
 	o := &verifC10_entry{exec: rt.NondetBool("executable")}
-	switch rt.Choose(6) {
+	switch rt.Choose(8) {
+	case 6: // a symlink whose target cannot be resolved
+		o.kind = filesystem.FileTypeSymlink
+		o.badLink = true
+	case 7: // an output directory containing such a symlink
+		o.kind = filesystem.FileTypeDirectory
+		o.children = map[string]*verifC10_entry{"l": {kind: filesystem.FileTypeSymlink, badLink: true}}
+		o.badLink = true
 	case 0:
 		o.kind = filesystem.FileTypeRegularFile
 	case 1:
@@ -243,6 +254,10 @@ func verifHarness_C10_DeclaredOutputs() {
 	n := len(declared)
 	nf, nd, ns := len(ar.OutputFiles), len(ar.OutputDirectories), len(ar.OutputSymlinks)
 	switch {
+	case o.badLink:
+		rt.Cover("out:unresolvable-symlink")
+		rt.Assert(uerr != nil, "a symlink whose target cannot be resolved is reported as an error, not with a made-up target")
+		rt.Assert(ns == 0, "no output symlink is reported with a target the action did not produce")
 	case o.missing:
 		rt.Cover("out:missing")
 		rt.Assert(uerr == nil && nf+nd+ns == 0, "a declared output that does not exist is simply absent from the result")
